@@ -366,6 +366,20 @@ def variants(chk, gens, oracle, tag, limit=12):
                                   f"{'accepted' if a['ok'] else 'refused (' + a['exc'] + ')'} under the shipped configuration and "
                                   f"{'accepted' if b['ok'] else 'refused (' + b['exc'] + ': ' + str(b.get('msg', ''))[:60] + ')'} here")
                         break
+                if bad and storage and 'q' in prog['ops'][bad[0]]:
+                    # a request on a boundary (a fill to exactly the capacity, a draw of exactly what is there) is decided by the last
+                    # digit of the stored amounts, which another storage unit rounds elsewhere: if the request moved by one part in a
+                    # million towards the decision taken under the shipped configuration is decided that way here, it is a tie
+                    from decimal import Decimal
+                    p2 = json.loads(json.dumps(dict(prog, ops=prog['ops'][:bad[0] + 1])))
+                    q2 = p2['ops'][bad[0]]['q']
+                    q2['v'] = format(Decimal(q2['v'].lstrip('+')) * (Decimal('0.999999') if ref[bad[0]]['ok'] else Decimal('1.000001')), 'f')
+                    try:
+                        o2 = run_variant([p2], overrides, tag + '_tie', factory_density=False)[0]
+                        if o2[bad[0]]['ok'] == ref[bad[0]]['ok']:
+                            bad = None
+                    except Exception:  # noqa
+                        pass
                 if bad:
                     chk.violation(f"under configuration '{name}': " + bad[1],
                                   {'program': dict(prog, ops=prog['ops'][:bad[0] + 1]), 'configuration': {k: str(v) for k, v in overrides.items()},
